@@ -219,6 +219,11 @@ def check_invariants(circ, m):
     for k, lst in circ.node_dict.items():
         if len(lst) != len(set(lst)):
             return "node_dict-duplicates", {"key": k, "list": list(map(str, lst))}
+        if k not in want_nd and lst:
+            # an index key the harness cannot derive from labels / class / register types: only demand that it holds live nodes
+            if not set(lst) <= set(dag.nodes):
+                return "node_dict-stale-or-missing", {"key": k, "index": sorted(map(str, lst)), "graph": "(unknown key) contains ids that are not nodes"}
+            continue
         if set(lst) != set(want_nd.get(k, [])):
             return "node_dict-stale-or-missing", {"key": k, "index": sorted(map(str, lst)), "graph": sorted(map(str, want_nd.get(k, [])))}
     for k in want_nd:
